@@ -208,22 +208,6 @@ func NewWorld(cfg WorldCfg) (*World, error) {
 			st.AddConstraint(boltz.NewSystemEntityEnforcementConstraint(st))
 		}
 	}
-	// links
-	for _, lc := range cfg.Links {
-		a, b := w.Stores[lc.A], w.Stores[lc.B]
-		symA := a.AddFkSetSymbol(lc.FieldA, b)
-		symB := symA
-		if !(lc.A == lc.B && lc.FieldA == lc.FieldB) {
-			symB = b.AddFkSetSymbol(lc.FieldB, a)
-		}
-		if lc.RefCounted {
-			w.RcLinks[lc.A+"."+lc.FieldA] = a.AddRefCountedLinkCollection(symA, symB)
-			w.RcLinks[lc.B+"."+lc.FieldB] = b.AddRefCountedLinkCollection(symB, symA)
-		} else {
-			w.Links[lc.A+"."+lc.FieldA] = a.AddLinkCollection(symA, symB)
-			w.Links[lc.B+"."+lc.FieldB] = b.AddLinkCollection(symB, symA)
-		}
-	}
 	// children
 	for _, cc := range cfg.Children {
 		parent := w.Stores[cc.Parent]
@@ -265,6 +249,28 @@ func NewWorld(cfg WorldCfg) (*World, error) {
 		})
 		w.Kids[cc.Name] = ks
 		w.KidCfgs[cc.Name] = cc
+	}
+	// links
+	cfgStore := func(name string) boltz.ConfigurableStore {
+		if st, ok := w.Stores[name]; ok {
+			return st
+		}
+		return w.Kids[name]
+	}
+	for _, lc := range cfg.Links {
+		a, b := cfgStore(lc.A), cfgStore(lc.B)
+		symA := a.AddFkSetSymbol(lc.FieldA, b)
+		symB := symA
+		if !(lc.A == lc.B && lc.FieldA == lc.FieldB) {
+			symB = b.AddFkSetSymbol(lc.FieldB, a)
+		}
+		if lc.RefCounted {
+			w.RcLinks[lc.A+"."+lc.FieldA] = a.AddRefCountedLinkCollection(symA, symB)
+			w.RcLinks[lc.B+"."+lc.FieldB] = b.AddRefCountedLinkCollection(symB, symA)
+		} else {
+			w.Links[lc.A+"."+lc.FieldA] = a.AddLinkCollection(symA, symB)
+			w.Links[lc.B+"."+lc.FieldB] = b.AddLinkCollection(symB, symA)
+		}
 	}
 	// initialise indexes the way real callers do, in a first transaction
 	err := w.Z.Db.Update(nil, func(ctx boltz.MutateContext) error {
@@ -754,10 +760,10 @@ func (m *Model) deleteRec(store, id string, system bool, visiting map[string]boo
 	// links disappear on both sides
 	for coll, as := range m.Links {
 		lc := m.linkCfg(coll)
-		if lc.A == store {
+		if m.BaseStore(lc.A) == store {
 			delete(as, id)
 		}
-		if lc.B == store {
+		if m.BaseStore(lc.B) == store {
 			for a := range as {
 				delete(as[a], id)
 			}
@@ -765,6 +771,27 @@ func (m *Model) deleteRec(store, id string, system bool, visiting map[string]boo
 	}
 	delete(m.Ents[store], id)
 	return OK
+}
+
+// BaseStore maps a child store name to its parent store (top-level stores map to themselves).
+func (m *Model) BaseStore(name string) string {
+	if cc, ok := m.childCfg(name); ok {
+		return cc.Parent
+	}
+	return name
+}
+
+// LinkEndExists reports whether id exists as an entity of the given store (for a child store: has child data there).
+func (m *Model) LinkEndExists(store, id string) bool {
+	e, ok := m.Ents[m.BaseStore(store)][id]
+	if !ok {
+		return false
+	}
+	if _, isChild := m.childCfg(store); isChild {
+		_, has := e.Kid[store]
+		return has
+	}
+	return true
 }
 
 func (m *Model) linkCfg(coll string) LinkCfg {
